@@ -30,6 +30,34 @@ Theorem C03_source_skeleton :
 Proof. exact skeleton_ok. Qed.
 Print Assumptions C03_source_skeleton.
 
+(* tie: the attribute -> sensor table read from the last statements of select() (each of the form
+   self.<attr> = sorted(set(self.sensor[<sensor>])), assigned nowhere else) is the one the model reads the copied
+   index lists and target_indices through *)
+Theorem C03_index_attrs_source :
+  sel_indices_attrs = [("scan_indices", "Observation/scan_index"); ("compscan_indices", "Observation/compscan_index");
+                       ("target_indices", "Observation/target_index")]%string
+  /\ it_field WScans = d_scan /\ it_field WCompscans = d_cscan /\ it_tfield = d_target.
+Proof. exact index_attrs_ok. Qed.
+Print Assumptions C03_index_attrs_source.
+
+(* tie: the numbers and strings in the decisions of the segmentation pipelines of VisibilityDataV4 / H5DataV3 /
+   H5DataV2 (statement order and comparison operators are fixed by the shape test of the translator item; the model
+   `segment` RUNS on these numbers through segk_of, and add_unmatched on C11's translated default match distance) *)
+Theorem C03_segmentation_source_skeleton :
+  (seg_v4_slew_len_gt = 1 /\ seg_v4_slew_event_index = 1 /\ seg_v4_slew_event_value = 1 /\ seg_v4_slew_dump = 1
+   /\ seg_v4_slew_value = "slew"%string /\ seg_v4_label_uv_gt = 1 /\ seg_v4_label_removed = ""%string /\ seg_v4_label_first_gt = 0
+   /\ seg_v4_label_add_event = 0 /\ seg_v4_label_add_value = ""%string /\ seg_v4_stop_value = "stop"%string /\ seg_v4_stop_dump = 0)
+  /\ (seg_v3_slew_len_gt = 1 /\ seg_v3_slew_event_index = 1 /\ seg_v3_slew_event_value = 1 /\ seg_v3_slew_dump = 1
+   /\ seg_v3_slew_value = "slew"%string /\ seg_v3_label_uv_gt = 1 /\ seg_v3_label_removed = ""%string /\ seg_v3_label_first_gt = 0
+   /\ seg_v3_label_add_event = 0 /\ seg_v3_label_add_value = ""%string /\ seg_v3_nothing_len_gt = 1 /\ seg_v3_nothing_dump = 0
+   /\ seg_v3_nothing_value = "Nothing, special"%string)
+  /\ (seg_v2_slew_len_gt = 1 /\ seg_v2_slew_event_index = 1 /\ seg_v2_slew_event_value = 1 /\ seg_v2_slew_dump = 1
+   /\ seg_v2_slew_value = "slew"%string /\ seg_v2_label_uv_gt = 1 /\ seg_v2_label_removed = ""%string /\ seg_v2_label_first_gt = 0
+   /\ seg_v2_label_add_event = 0 /\ seg_v2_label_add_value = ""%string)
+  /\ k_dist (segk_of V4) = 1%nat.
+Proof. exact ScansNamesP.seg_skeleton_ok. Qed.
+Print Assumptions C03_segmentation_source_skeleton.
+
 (* every state reachable from the constructor by successful select() calls (distinct keywords per call) satisfies the
    invariant the theorems below assume *)
 Theorem C03_reachable : forall o s, reachable_nd o s -> Inv3 o s.
